@@ -90,6 +90,10 @@ func vlenDecision(p *Program, f *ssa.Function, fixedStore, posStore *ssa.Store) 
 	}
 	flag, ok := cond.(*ssa.Phi)
 	if !ok {
+		// the flag may live in a field of a local record, possibly filled by a helper that scans the elements
+		if g, base, field, okc := flagCell(cond, f); okc {
+			return vlenCellDecision(p, g, base, field)
+		}
 		e := newEval(p)
 		return "the layout is chosen by " + abbreviate(e.eval(cond).String()) + ", computed from aggregates after the element loop, not by a per-element flag: value lists whose sizes differ but satisfy it are laid out as fixed-size and sliced at wrong offsets"
 	}
@@ -133,59 +137,202 @@ func vlenDecision(p *Program, f *ssa.Function, fixedStore, posStore *ssa.Store) 
 		return "the layout flag is never cleared (or never initialised true)"
 	}
 	// each clearing site is inside a loop and guarded by size(current) != carried size
-	e := newEval(p)
 	for _, b := range falseEdges {
 		header := loopHeaderOf(b)
 		if header == nil {
 			return "the layout flag is cleared outside the element loop (decided from aggregates) at " + p.Pos(lastInstr(b).Pos())
 		}
-		okGuard := false
-		cds := controlDeps(f, nil)
-		seen := map[*ssa.BasicBlock]bool{}
-		var chain func(x *ssa.BasicBlock)
-		chain = func(x *ssa.BasicBlock) {
-			if seen[x] {
-				return
+		isCarried := func(v ssa.Value, cur ssa.Value) bool {
+			ph, ok := stripConv(v).(*ssa.Phi)
+			return ok && ph.Block() == header
+		}
+		if !clearedUnderSizeCompare(p, f, b, isCarried) {
+			return fmt.Sprintf("the layout flag is cleared at %s but not under a comparison of the current element's size with the previous one", p.Pos(lastInstr(b).Pos()))
+		}
+	}
+	return ""
+}
+
+func stripConv(v ssa.Value) ssa.Value {
+	for {
+		if cv, ok := v.(*ssa.Convert); ok {
+			v = cv.X
+			continue
+		}
+		return v
+	}
+}
+
+// clearedUnderSizeCompare: block b is control dependent, on the "differs" side,
+// on a comparison of the current element's size (a len term) with a carried size.
+func clearedUnderSizeCompare(p *Program, f *ssa.Function, b *ssa.BasicBlock, isCarried func(v, cur ssa.Value) bool) bool {
+	e := newEval(p)
+	okGuard := false
+	cds := controlDeps(f, nil)
+	seen := map[*ssa.BasicBlock]bool{}
+	var chain func(x *ssa.BasicBlock)
+	chain = func(x *ssa.BasicBlock) {
+		if seen[x] {
+			return
+		}
+		seen[x] = true
+		for _, d := range cds[x] {
+			gi, ok := lastInstr(d.branch).(*ssa.If)
+			if !ok {
+				continue
 			}
-			seen[x] = true
-			for _, d := range cds[x] {
-				gi, ok := lastInstr(d.branch).(*ssa.If)
-				if !ok {
-					continue
-				}
-				if bo, ok := gi.Cond.(*ssa.BinOp); ok && (bo.Op == token.NEQ || bo.Op == token.EQL) {
-					x1, y1 := e.eval(bo.X).String(), e.eval(bo.Y).String()
-					isCur := func(t string) bool { return strings.Contains(t, "len(") }
-					isCarried := func(v ssa.Value) bool {
-						for {
-							if cv, ok := v.(*ssa.Convert); ok {
-								v = cv.X
-								continue
-							}
-							break
-						}
-						ph, ok := v.(*ssa.Phi)
-						return ok && ph.Block() == header
+			if bo, ok := gi.Cond.(*ssa.BinOp); ok && (bo.Op == token.NEQ || bo.Op == token.EQL) {
+				x1, y1 := e.eval(bo.X).String(), e.eval(bo.Y).String()
+				isCur := func(t string) bool { return strings.Contains(t, "len(") }
+				if (isCur(x1) && isCarried(bo.Y, bo.X)) || (isCur(y1) && isCarried(bo.X, bo.Y)) {
+					// cleared on the "differs" side
+					differs := 0
+					if bo.Op == token.EQL {
+						differs = 1
 					}
-					if (isCur(x1) && isCarried(bo.Y)) || (isCur(y1) && isCarried(bo.X)) {
-						// cleared on the "differs" side
-						differs := 0
-						if bo.Op == token.EQL {
-							differs = 1
-						}
-						if d.succ == differs {
-							okGuard = true
-						}
+					if d.succ == differs {
+						okGuard = true
 					}
 				}
-				if d.branch != x {
-					chain(d.branch)
-				}
+			}
+			if d.branch != x {
+				chain(d.branch)
 			}
 		}
-		chain(b)
-		if !okGuard {
-			return fmt.Sprintf("the layout flag is cleared at %s but not under a comparison of the current element's size with the previous one", p.Pos(lastInstr(b).Pos()))
+	}
+	chain(b)
+	return okGuard
+}
+
+// flagCell resolves a condition that loads a boolean field of a local record:
+// returns the function in which the record is filled (f itself, or the helper
+// whose result is stored into the local), the record's allocation there and
+// the field index.
+func flagCell(cond ssa.Value, f *ssa.Function) (*ssa.Function, *ssa.Alloc, int, bool) {
+	ld, ok := cond.(*ssa.UnOp)
+	if !ok || ld.Op != token.MUL {
+		return nil, nil, 0, false
+	}
+	fa, ok := ld.X.(*ssa.FieldAddr)
+	if !ok {
+		return nil, nil, 0, false
+	}
+	al, ok := fa.X.(*ssa.Alloc)
+	if !ok {
+		return nil, nil, 0, false
+	}
+	// is the whole record stored from a call?
+	for _, ref := range *al.Referrers() {
+		st, ok := ref.(*ssa.Store)
+		if !ok || st.Addr != ssa.Value(al) {
+			continue
+		}
+		call, ok := st.Val.(*ssa.Call)
+		if !ok {
+			return nil, nil, 0, false
+		}
+		h := calleeOf(call)
+		if h == nil || !trieScope(h) || len(h.Blocks) == 0 {
+			return nil, nil, 0, false
+		}
+		// h returns *B for a local record B
+		var base *ssa.Alloc
+		for _, ret := range returnsOf(h) {
+			if len(ret.Results) != 1 {
+				return nil, nil, 0, false
+			}
+			l2, ok := ret.Results[0].(*ssa.UnOp)
+			if !ok || l2.Op != token.MUL {
+				return nil, nil, 0, false
+			}
+			b2, ok := l2.X.(*ssa.Alloc)
+			if !ok || (base != nil && base != b2) {
+				return nil, nil, 0, false
+			}
+			base = b2
+		}
+		if base == nil {
+			return nil, nil, 0, false
+		}
+		return h, base, fa.Field, true
+	}
+	return f, al, fa.Field, true
+}
+
+// vlenCellDecision: the flag is field `field` of the local record base in g:
+// it is stored only boolean constants, true at least once, and every false
+// store sits in a loop under a comparison of the current element's size with a
+// size carried in a phi or in another field of the same record that the loop
+// updates with the current size.
+func vlenCellDecision(p *Program, g *ssa.Function, base *ssa.Alloc, field int) string {
+	hasTrue := false
+	var falseStores []*ssa.Store
+	bad := ""
+	instrsOf(g, func(_ *ssa.BasicBlock, in ssa.Instruction) {
+		st, ok := in.(*ssa.Store)
+		if !ok {
+			return
+		}
+		fa, ok := st.Addr.(*ssa.FieldAddr)
+		if !ok || fa.X != ssa.Value(base) || fa.Field != field {
+			return
+		}
+		b, isB := constBool(st.Val)
+		if !isB {
+			e := newEval(p)
+			bad = "the layout flag is assigned " + abbreviate(e.eval(st.Val).String()) + " (not a per-element fold of true/false)"
+			return
+		}
+		if b {
+			hasTrue = true
+		} else {
+			falseStores = append(falseStores, st)
+		}
+	})
+	if bad != "" {
+		return bad
+	}
+	if !hasTrue || len(falseStores) == 0 {
+		return "the layout flag is never cleared (or never initialised true)"
+	}
+	for _, st := range falseStores {
+		b := st.Block()
+		header := loopHeaderOf(b)
+		if header == nil {
+			return "the layout flag is cleared outside the element loop (decided from aggregates) at " + p.Pos(st.Pos())
+		}
+		isCarried := func(v, cur ssa.Value) bool {
+			v = stripConv(v)
+			if ph, ok := v.(*ssa.Phi); ok && ph.Block() == header {
+				return true
+			}
+			// a field of the same record that the loop sets to the current size
+			ld, ok := v.(*ssa.UnOp)
+			if !ok || ld.Op != token.MUL {
+				return false
+			}
+			fa, ok := ld.X.(*ssa.FieldAddr)
+			if !ok || fa.X != ssa.Value(base) {
+				return false
+			}
+			updated := false
+			instrsOf(g, func(bb *ssa.BasicBlock, in ssa.Instruction) {
+				s2, ok := in.(*ssa.Store)
+				if !ok {
+					return
+				}
+				fa2, ok := s2.Addr.(*ssa.FieldAddr)
+				if !ok || fa2.X != ssa.Value(base) || fa2.Field != fa.Field {
+					return
+				}
+				if stripConv(s2.Val) == stripConv(cur) && loopHeaderOf(bb) == header {
+					updated = true
+				}
+			})
+			return updated
+		}
+		if !clearedUnderSizeCompare(p, g, b, isCarried) {
+			return fmt.Sprintf("the layout flag is cleared at %s but not under a comparison of the current element's size with the previous one", p.Pos(st.Pos()))
 		}
 	}
 	return ""
